@@ -2,6 +2,7 @@ import QR.Proofs.Fit
 import QR.Proofs.Pinned
 import QR.Proofs.SourceTieA5
 import QR.Proofs.SourceTieB1
+import QR.Proofs.CapstoneE1
 /-
 C07 - automatic fitting picks the smallest adequate version; capacities match ISO.
 `Model.bestFit` mirrors QRCode.best_fit: stream length with the count widths of the class of `start`, `bisect_left` on
@@ -151,6 +152,90 @@ theorem C07_source_bestFitS_src (fuel start : Nat) (s : QRState) :
   QR.SourceTieB.bestFitS_src fuel start s
 
 end SourceTieT2
+
+/-! ### Capstones: the property composed with the source tie. `qrcode/main.py:QRCode.best_fit` is translated statement by
+    statement (`Gen.Code.best_fit_*`, `check_version_bad`, `mode_size_class`, regenerated from /repo's current Python AST
+    on every run), not as one function; `QR.CapstoneE1.bestFitSrc` / `segsBitsSrc` (QR/Proofs/CapstoneE1.lean) assemble
+    those fragments exactly as the right-hand sides of `C07_source_bestFit_src` / `C07_source_segsBits_src` do, the
+    recursive call going to the assembled function itself. The chain is only PARTLY translated: the callees
+    `util.mode_sizes_for_version`, `data.write(buffer)`, `bisect.bisect_left` and the `version` setter are parameters,
+    instantiated below by the Model functions `modeSizes`, `segWrite`, `bisectLeft`, `checkVersion` (those are tied to
+    the source by the bridge theorems of other properties); `util.BIT_LIMIT_TABLE` is the table dumped from the running
+    library (`Gen.BIT_LIMIT_TABLE`). No other Model function occurs in a conclusion. The first argument `4` is the
+    recursion fuel (at most 3 levels are ever needed: one per version class), `start = 0` encodes `start=None`,
+    `l.indicator` is the integer the library uses for the level, `toPSegs segs = some ps` reads the segments as Spec
+    segments and `segCounts ps` are their (mode, character count) pairs. -/
+section Capstone
+open QR.Model QR.Gen.Code QR.SourceTieA QR.SourceTieB QR.CapstoneE1
+
+/-- **capstone, `qrcode/main.py:QRCode.best_fit`** = the Spec's minimal-version function: the assembled translated source returns
+    `Spec.minVersion start l counts`, the smallest version in `max start 1 .. 40` whose ISO capacity holds the stream
+    (closed-form length with that version's own count widths), and raises DataOverflowError when there is none.
+    From `C07_source_bestFit_src`, `C07_source_segsBits_src` (via `CapstoneE1.bestFitSrc_eq`) and `C07_eq_minVersion`. -/
+theorem C07_source_capstone_eq_minVersion (start : Nat) (hs : start ≤ 40) (l : Spec.Level) (segs : List Seg)
+    (ps : List Spec.PSeg) (hv : ∀ s ∈ segs, s.Valid) (hp : toPSegs segs = some ps) :
+    bestFitSrc modeSizes (segsBitsSrc segWrite) Gen.BIT_LIMIT_TABLE bisectLeft checkVersion 4 start l.indicator segs =
+      (match Spec.minVersion start l (segCounts ps) with
+       | some v => .ok v
+       | none => .error .dataOverflow) := by
+  rw [bestFitSrc_eq]
+  exact C07_eq_minVersion start hs l segs ps hv hp
+
+/-- **capstone, `qrcode/main.py:QRCode.best_fit`**, definition-free: the version the assembled translated source returns is
+    adequate (`Spec.fits`), not below the start, at most 40, and every smaller admissible version is inadequate.
+    From `C07_source_bestFit_src`, `C07_source_segsBits_src` (via `CapstoneE1.bestFitSrc_eq`) and `C07_minimal`. -/
+theorem C07_source_capstone_minimal (start : Nat) (hs : start ≤ 40) (l : Spec.Level) (segs : List Seg)
+    (ps : List Spec.PSeg) (hv : ∀ s ∈ segs, s.Valid) (hp : toPSegs segs = some ps) (v : Nat)
+    (h : bestFitSrc modeSizes (segsBitsSrc segWrite) Gen.BIT_LIMIT_TABLE bisectLeft checkVersion 4 start l.indicator segs = .ok v) :
+    max start 1 ≤ v ∧ v ≤ 40 ∧ Spec.fits v l (segCounts ps) = true ∧
+      ∀ u, max start 1 ≤ u → u < v → Spec.fits u l (segCounts ps) = false := by
+  rw [bestFitSrc_eq] at h
+  exact C07_minimal start hs l segs ps hv hp v h
+
+/-- **capstone, `qrcode/main.py:QRCode.best_fit`**, failure: the assembled translated source raises DataOverflowError exactly when no
+    version from the start up to 40 holds the stream, and raises nothing else.
+    From `C07_source_bestFit_src`, `C07_source_segsBits_src` (via `CapstoneE1.bestFitSrc_eq`), `C07_overflow_iff` and
+    `C07_error_only_overflow`. -/
+theorem C07_source_capstone_overflow_iff (start : Nat) (hs : start ≤ 40) (l : Spec.Level) (segs : List Seg)
+    (ps : List Spec.PSeg) (hv : ∀ s ∈ segs, s.Valid) (hp : toPSegs segs = some ps) :
+    (bestFitSrc modeSizes (segsBitsSrc segWrite) Gen.BIT_LIMIT_TABLE bisectLeft checkVersion 4 start l.indicator segs = .error .dataOverflow ↔
+      ∀ u, max start 1 ≤ u → u ≤ 40 → Spec.fits u l (segCounts ps) = false) ∧
+    (∀ e, bestFitSrc modeSizes (segsBitsSrc segWrite) Gen.BIT_LIMIT_TABLE bisectLeft checkVersion 4 start l.indicator segs = .error e → e = .dataOverflow) := by
+  rw [bestFitSrc_eq]
+  exact ⟨C07_overflow_iff start hs l segs ps hv hp, fun e h => C07_error_only_overflow start hs l segs ps hv hp e h⟩
+
+/-- **capstone, `qrcode/util.py:BIT_LIMIT_TABLE`** (the module-level comprehension `[[0] + [8 * sum(_data_count(b) for b in
+    base.rs_blocks(version, ec)) for version in range(1, 41)] for ec in range(4)]`): the translated comprehension
+    evaluates to a table whose row for each level is `0` followed by the ISO capacities `Spec.capacityBits v l`,
+    `v = 1..40`. PARTLY translated: `bitLimitRow` (QR/Proofs/SourceTieA5.lean) is the translated row comprehension with
+    the callee `base.rs_blocks` instantiated by `Model.rsBlocks` (tied to the source under C02).
+    From `C07_source_bitLimitTable_src` and `C07_capacity_rows`. -/
+theorem C07_source_capstone_capacity_rows :
+    ∃ T, (List.range' bit_limit_level_range.1 (bit_limit_level_range.2 - bit_limit_level_range.1)).mapM bitLimitRow = .ok T ∧
+      ∀ l ∈ allLevels, ∃ row, T[l.indicator]? = some row ∧ row.length = 41 ∧ row[0]? = some 0 ∧
+        ∀ v, v < 40 → row[v + 1]? = some (Spec.capacityBits (v + 1) l) :=
+  ⟨Gen.BIT_LIMIT_TABLE, C07_source_bitLimitTable_src, C07_capacity_rows⟩
+
+/-- the first capstone at a concrete input (200 bytes then 9 digits, level H, `start=None`): the assembled translated source
+    returns version 15 - found after a re-fit, since 15 is in another count-width class than the start 1 - which is the
+    Spec's minimal version for these counts -/
+example : bestFitSrc modeSizes (segsBitsSrc segWrite) Gen.BIT_LIMIT_TABLE bisectLeft checkVersion 4 0 Spec.Level.H.indicator
+    [⟨4, List.replicate 200 65⟩, ⟨1, List.replicate 9 48⟩] = .ok 15 := by
+  have hv : ∀ s ∈ ([⟨4, List.replicate 200 65⟩, ⟨1, List.replicate 9 48⟩] : List Seg), s.Valid := by
+    intro s hs
+    simp only [List.mem_cons, List.not_mem_nil, or_false] at hs
+    rcases hs with rfl | rfl
+    · exact Or.inr (Or.inr ⟨rfl, by decide +kernel⟩)
+    · exact Or.inl ⟨rfl, by decide +kernel⟩
+  have hm : Spec.minVersion 0 .H (segCounts [⟨.byte, List.replicate 200 65⟩, ⟨.numeric, List.replicate 9 48⟩]) = some 15 := by
+    decide +kernel
+  rw [C07_source_capstone_eq_minVersion 0 (by decide) .H _ [⟨.byte, List.replicate 200 65⟩, ⟨.numeric, List.replicate 9 48⟩] hv
+    (by decide +kernel), hm]
+/-- the same evaluated directly by the kernel on the assembled translated definitions -/
+example : (bestFitSrc modeSizes (segsBitsSrc segWrite) Gen.BIT_LIMIT_TABLE bisectLeft checkVersion 4 0 Spec.Level.H.indicator
+    [⟨4, List.replicate 200 65⟩, ⟨1, List.replicate 9 48⟩]).toOption = some 15 := by decide +kernel
+
+end Capstone
 
 /-- the Python functions this property's model mirrors have, in /repo's current working tree, exactly the normalised
     ASTs the model was written and validated against (fingerprints regenerated by T1 on every run) -/
